@@ -644,7 +644,7 @@ impl Sub for RoundTrip {
         "model list of 1..40 (quick) / ..400 (thorough) records -> own writer per format (JASPAR raw, JASPAR 2016, TRANSFAC, UniPROBE; DNA and protein where supported; ids / accession / name / description present or absent incl. multi-byte UTF-8; width 1..30; counts to u32::MAX; symbol lines / columns in any order and possibly missing; separator runs of blanks and tabs; LF or CRLF; optional VV block, XX lines, blank lines where the format allows) -> bytes -> reader over 3 generated chunkings (1-byte chunks, fixed, cyclic patterns, BufReader capacity 1..8192, whole); records read must equal the model (count, order, every field, every cell, unnamed columns 0) and then None twice; non-trivial = >= 2 records and a chunking whose chunks are shorter than the file"
     }
     fn cases(&self, tier: Tier) -> u64 {
-        tier.pick(6_000, 200_000)
+        tier.pick(20_000, 400_000)
     }
     fn strategy(&self, tier: Tier) -> BoxedStrategy<Case> {
         (file_strategy(tier.pick(40, 400)), proptest::collection::vec(chunking_strategy(), 3)).prop_map(|(file, chunkings)| Case { file, chunkings }).boxed()
